@@ -45,9 +45,9 @@ const (
 	c12FindRename      = "C12-rename-fallback-truncates-target"
 	c12FindFMNoResult  = "C12-front-matter-body-dropped-on-empty-result"
 	c12FindJSONRead    = "C12-json-read-error-treated-as-eof"
-	c12QuickClasses    = 14
-	c12QuickPairs      = 14
-	c12ThoroughPairs   = 114 // 19 classes x 6
+	c12QuickClasses    = 16
+	c12QuickPairs      = 16
+	c12ThoroughPairs   = 126 // 21 classes x 6
 	c12StraceBin       = "/usr/bin/strace"
 	c12TraceSetLiteral = "execve,openat,?open,newfstatat,?stat,?lstat,fstat,statx,fchmodat,fchmod,fchownat,fchown,?chmod,?chown," +
 		"read,pread64,write,pwrite64,copy_file_range,sendfile,?splice,fsync,fdatasync,close,renameat,renameat2,?rename," +
@@ -57,7 +57,7 @@ const (
 func (c12) ID() string    { return "C12" }
 func (c12) Level() string { return "fault_enumeration" }
 func (c12) Rule() string {
-	return "case idx = (pair, TMPDIR placement {same fs | other fs => genuine EXDEV}, slice 0..4). pair = (eval|eval-all, flags, expression, file(s), mode) from 14 (quick) / 19 (thorough) classes " +
+	return "case idx = (pair, TMPDIR placement {same fs | other fs => genuine EXDEV}, slice 0..4). pair = (eval|eval-all, flags, expression, file(s), mode) from 16 (quick) / 21 (thorough) classes " +
 		"(small/large/multi-doc/format-changing/two-file/eval-all/JSON/XML/CSV/properties edits, front matter with hostile trailing bytes (CRLF, inner ---, NUL/0xFF bytes, no final newline, > 4 KiB), " +
 		"parse error, decode error in document k>1, evaluation error (also in document k>1 after output was produced), encoder error, -e without match, front matter with empty result). " +
 		"Per case: the same command without -i gives expected-new; one plain `-i` run (default environment, untraced); one recording run under the ptrace tracer and one under strace (must agree) " +
@@ -109,12 +109,13 @@ type c12Pair struct {
 	Files []c12File // Files[0] is the in-place target
 	Mode  os.FileMode
 	Rest  []byte // --front-matter=process: the bytes after the front matter (nil otherwise)
+	Link  bool   // the target is a symbolic link to a regular file next to it
 }
 
 var c12Classes = []string{
 	"edit_small", "edit_large", "front_matter", "multi_doc", "eval_all_merge", "parse_error",
 	"decode_error_doc_k", "eval_error", "encoder_error", "exit_status_nomatch", "format_change", "front_matter_noresult",
-	"front_matter_ea", "json_file",
+	"front_matter_ea", "json_file", "long_line", "symlink_target",
 	// thorough only
 	"two_files_eval", "front_matter_misc", "eval_error_doc_k", "other_format_file", "json_large",
 }
@@ -429,6 +430,21 @@ func c12GenPair(r *rand.Rand, pairNo int, tier string, seed int64) c12Pair {
 	case "two_files_eval":
 		p.Files = []c12File{yamlFile(c12Doc(r)), {"other.yaml", []byte(c12Doc(r))}}
 		p.Expr = c12EditExpr(r)
+	case "long_line":
+		// a line longer than any reader buffer comes first and stays as it is; what the edit changes comes after it
+		blob := strings.Repeat(c12Word(r)[:1], 4090+r.IntN(5000))
+		if r.IntN(2) == 0 {
+			p.Files = []c12File{yamlFile(fmt.Sprintf("blob: %s\n", blob) + c12Doc(r))}
+			p.Expr = c12EditExpr(r)
+		} else {
+			p.Files = []c12File{{"data.json", []byte(fmt.Sprintf("{\"blob\":\"%s\",\"a\":%d,\"list\":[1,2],\"s\":\"%s\",\"b\":{\"c\":\"x\",\"d\":[1,2,3]}}\n", blob, r.IntN(100), c12Word(r)))}}
+			p.Flags = []string{"-o=json", "-I0"}
+			p.Expr = c12EditExpr(r)
+		}
+	case "symlink_target":
+		p.Files = []c12File{yamlFile(c12Doc(r))}
+		p.Expr = c12EditExpr(r)
+		p.Link = true
 	case "json_file":
 		p.Files = []c12File{{"data.json", []byte(fmt.Sprintf("{\"a\": %d, \"b\": {\"c\": \"%s\", \"d\": [1, 2, 3]}, \"list\": [4, 5], \"s\": \"%s\"}\n", r.IntN(100), c12Word(r), c12Word(r)))}}
 		p.Expr = c12EditExpr(r)
@@ -458,6 +474,9 @@ func (p *c12Pair) describe() map[string]any {
 	d := map[string]any{"class": p.Class, "cmd": p.Cmd, "flags": p.Flags, "expr": p.Expr, "files": files, "mode": fmt.Sprintf("%04o", p.Mode)}
 	if p.Rest != nil {
 		d["bytes_after_front_matter"] = len(p.Rest)
+	}
+	if p.Link {
+		d["target_is_symlink_to"] = "real/" + p.Files[0].Name
 	}
 	return d
 }
@@ -1047,15 +1066,30 @@ func (c *c12Ctx) reset() error {
 	}
 	for i, f := range c.pair.Files {
 		_ = os.Remove(c.paths[i])
-		if err := os.WriteFile(c.paths[i], f.Content, 0o600); err != nil {
+		path := c.paths[i]
+		if i == 0 && c.pair.Link {
+			// the referent lives in a directory of its own; the target name is a relative link to it
+			rd := filepath.Join(c.work, "real")
+			_ = os.RemoveAll(rd)
+			if err := os.MkdirAll(rd, 0o755); err != nil {
+				return err
+			}
+			path = filepath.Join(rd, f.Name)
+		}
+		if err := os.WriteFile(path, f.Content, 0o600); err != nil {
 			return err
 		}
 		m := os.FileMode(0o644)
 		if i == 0 {
 			m = c.pair.Mode
 		}
-		if err := os.Chmod(c.paths[i], m); err != nil {
+		if err := os.Chmod(path, m); err != nil {
 			return err
+		}
+		if path != c.paths[i] {
+			if err := os.Symlink(filepath.Join("real", f.Name), c.paths[i]); err != nil {
+				return err
+			}
 		}
 	}
 	return nil
